@@ -2,6 +2,8 @@ package main
 
 import (
 	"bytes"
+	"compress/gzip"
+	"encoding/base64"
 	"fmt"
 	"math/rand"
 	"regexp"
@@ -36,21 +38,23 @@ type encoded struct {
 
 // pkgRun is the state of the property loops over one package.
 type pkgRun struct {
-	ctxClass  string // class attached to failures reported while it is set
-	longRound bool   // the current value carries a planted long string
-	eng       *engine
-	sc        *schemaCase
-	pkg       *pkgbuild.Package
-	drv       *session.Session
-	mdl       *session.Session // nil: no model
-	rng       *rand.Rand
-	stats     map[string]*PropStats
-	pool      []encoded
-	deadline  time.Time
-	envLines  []string
-	dead      bool // the driver or the model cannot be restarted
-	timeouts  int  // driver timeouts so far (C07 stops drawing wild corruptions after two)
-	bad       int  // driver crashes and timeouts so far (C07 slows down after maxBad)
+	ctxClass   string // class attached to failures reported while it is set
+	longRound  bool   // the current value carries a planted long string
+	hugeRound  bool   // ... of more than 1 MiB
+	roundsDone int
+	eng        *engine
+	sc         *schemaCase
+	pkg        *pkgbuild.Package
+	drv        *session.Session
+	mdl        *session.Session // nil: no model
+	rng        *rand.Rand
+	stats      map[string]*PropStats
+	pool       []encoded
+	deadline   time.Time
+	envLines   []string
+	dead       bool // the driver or the model cannot be restarted
+	timeouts   int  // driver timeouts so far (C07 stops drawing wild corruptions after two)
+	bad        int  // driver crashes and timeouts so far (C07 slows down after maxBad)
 }
 
 func (r *pkgRun) on(prop string) bool { return r.eng.props[prop] }
@@ -113,8 +117,16 @@ func (r *pkgRun) fail(prop, kind string, di int, op, expected, observed, model, 
 	for i, d := range r.sc.env.Defs {
 		names[i] = d.Name
 	}
+	opGz := ""
+	if len(op) > 400000 {
+		var zb bytes.Buffer
+		zw := gzip.NewWriter(&zb)
+		zw.Write([]byte(op))
+		zw.Close()
+		opGz = base64.StdEncoding.EncodeToString(zb.Bytes())
+	}
 	r.eng.coll.fail(Failure{
-		Class: class, DefNames: names,
+		Class: class, DefNames: names, OpGz: opGz,
 		Property: prop, Kind: kind, Package: r.pkg.ID, Schema: r.sc.text, Options: r.pkg.Options,
 		Def: r.sc.env.Defs[di].Name, DefIdx: di, Env: r.envLines,
 		Op: session.Abbrev(op, 400000), Expected: session.Abbrev(expected, 2000), Observed: session.Abbrev(observed, 2000),
@@ -245,8 +257,9 @@ func genConfigFor(round int) val.GenConfig {
 	if round%5 == 2 {
 		cfg.SmallLen = 9
 	}
-	// every seventh round also populates deprecated message fields: the encoders must skip them
-	cfg.SetDeprecated = round%7 == 6
+	// every third round (from the first on; rounds 1 and 2 plant long strings) also populates deprecated message
+	// fields: the encoders must skip them
+	cfg.SetDeprecated = round%3 == 0
 	return cfg
 }
 
@@ -259,6 +272,9 @@ func (r *pkgRun) run(rounds int) {
 			}
 			r.evalValue(di, round)
 		}
+		if !r.expired() {
+			r.roundsDone = round + 1
+		}
 	}
 }
 
@@ -268,11 +284,16 @@ func (r *pkgRun) evalValue(di, round int) {
 	raw := val.RandomRecord(r.valueRng(di, round), env, di, genConfigFor(round))
 	// two rounds plant one long string (beyond 4 KiB, beyond 64 KiB) as the last string of the value: a decoder may
 	// read long strings by another route, and every truncation / reader failure inside them must still surface
-	r.longRound = false
-	if n := map[int]int{(1 + di%2): 4097 + di%5, (2 - di%2): 65537 + di%7}[round]; n > 0 {
+	r.longRound, r.hugeRound = false, false
+	plan := map[int]int{(1 + di%2): 4097 + di%5, (2 - di%2): 65537 + di%7}
+	if strings.HasPrefix(env.Defs[di].Name, "EndsInStr") {
+		plan[4] = 1<<20 + 1 + di%3 // once per package, for the records whose last read is a string: beyond 1 MiB
+	}
+	if n := plan[round]; n > 0 {
 		if planted, ok := val.PlantLongString(raw, n); ok {
 			raw, r.longRound = planted, true
 			r.st("C06").dist("long-string", fmt.Sprint(n/1000, "k"))
+			r.hugeRound = n > 1<<20
 		}
 	}
 	// V is what the wire can carry: deprecated fields are never written. The driver gets raw
@@ -499,12 +520,15 @@ func (r *pkgRun) evalValue(di, round int) {
 		for ei, e := range encodings {
 			ops := []string{"unmarshal", "mustunmarshal", "decode"}
 			if ei == 0 {
-				ops = append(ops, "makefrombytes", "mustmakefrombytes", "make")
+				ops = append(ops, "makefrombytes", "mustmakefrombytes", "make", "decode-deof")
 			}
 			for _, name := range ops {
 				var op string
-				stream := name == "decode" || name == "make"
-				if stream {
+				stream := name == "decode" || name == "make" || name == "decode-deof"
+				if name == "decode-deof" {
+					// the record ends the stream and its last bytes arrive together with io.EOF
+					op = fmt.Sprintf("decode %d deof %s", di, e)
+				} else if stream {
 					op = fmt.Sprintf("%s %d all %s", name, di, e)
 				} else {
 					op = fmt.Sprintf("%s %d %s", name, di, e)
@@ -700,7 +724,8 @@ func (r *pkgRun) c05(di, round int, V val.Val, B []byte, hexB, want, bucket stri
 			all = append(all, e.b...)
 			idx += fmt.Sprintf(" %d", e.def)
 		}
-		chunk := []string{"all", "one", fmt.Sprintf("rnd%d", round)}[r.rng.Intn(3)]
+		// "deof": the last record's final bytes arrive together with io.EOF
+		chunk := []string{"all", "one", fmt.Sprintf("rnd%d", round), "deof"}[r.rng.Intn(4)]
 		op := fmt.Sprintf("decodeseq %s %d%s %s", chunk, n, idx, val.Hex(all))
 		rd := r.real(op)
 		outcome := "ok"
@@ -774,6 +799,9 @@ func (r *pkgRun) cutPoints(n int) []int {
 	head, random := 64, 64
 	if r.longRound {
 		head, random = 6, 10 // the operations carry the whole encoding: fewer of them
+	}
+	if r.hugeRound {
+		head, random = 2, 4
 	}
 	for k := 0; k < head; k++ {
 		add(k)
